@@ -35,6 +35,7 @@ import GdVerif.Run.Jc2mFaults
 import GdVerif.Run.Small
 import GdVerif.Run.FfowFaults
 import GdVerif.Run.MindustryFaults
+import GdVerif.Run.Http
 /-
   gdmodel: the model behind a line protocol.
     gdmodel run        : reads `<id> <entry> <args…>` lines on stdin, prints `<id> <outcome>`
@@ -74,7 +75,8 @@ def allEntries : List (String × (List String → String)) := List.flatten [
   gs1Entries,
   gs1FaultEntries,
   gs2Entries,
-  gs2FaultEntries
+  gs2FaultEntries,
+  httpEntries
   ]
 
 def runLine (line : String) : String :=
